@@ -462,6 +462,10 @@ type runOut struct {
 
 const sysTimeout = 500 * time.Millisecond
 
+// the reconcile timeout (wait phases after apply phases) differs from the prune / delete timeout, so that a run which
+// applies the wrong one reports Timeout too early somewhere
+const sysReconcileTimeout = sysTimeout + 150*time.Millisecond
+
 func runOne(c *fakecluster.Cluster, run sysRun) (out runOut) {
 	defer func() {
 		if r := recover(); r != nil {
@@ -582,9 +586,10 @@ func runOne(c *fakecluster.Cluster, run sysRun) (out runOut) {
 	if run.Opts.SkipInvalid {
 		vpol = validation.SkipInvalid
 	}
-	var tmo time.Duration
+	var tmo, rtmo time.Duration
 	if run.Opts.Timeout {
 		tmo = sysTimeout
+		rtmo = sysReconcileTimeout
 	}
 	prop := metav1.DeletePropagationBackground
 	if run.Opts.Foreground {
@@ -616,7 +621,7 @@ func runOne(c *fakecluster.Cluster, run sysRun) (out runOut) {
 		}
 		ch = a.Run(ctx, inv, objs, apply.ApplierOptions{
 			ServerSideOptions: common.ServerSideOptions{ServerSideApply: run.Opts.SSA, ForceConflicts: true, FieldManager: "verif"},
-			ReconcileTimeout:  tmo, PruneTimeout: tmo, EmitStatusEvents: run.Opts.EmitStatus, NoPrune: run.Opts.NoPrune,
+			ReconcileTimeout:  rtmo, PruneTimeout: tmo, EmitStatusEvents: run.Opts.EmitStatus, NoPrune: run.Opts.NoPrune,
 			DryRunStrategy: dry, PrunePropagationPolicy: prop, InventoryPolicy: policy, ValidationPolicy: vpol})
 	}
 
@@ -803,6 +808,9 @@ func runOne(c *fakecluster.Cluster, run sysRun) (out runOut) {
 		}
 	}
 
+	waitStarted := map[string]time.Time{}
+	waitLimit := map[string]time.Duration{}
+	var lastAction event.ResourceAction
 	timeoutCh := time.After(20 * time.Second)
 loop:
 	for {
@@ -828,7 +836,28 @@ loop:
 						pending[g.Name] = map[string]bool{}
 					}
 				}
+			case event.ActionGroupType:
+				if e.ActionGroupEvent.Status == event.Started {
+					if e.ActionGroupEvent.Action == event.WaitAction {
+						waitStarted[e.ActionGroupEvent.GroupName] = time.Now()
+						waitLimit[e.ActionGroupEvent.GroupName] = tmo
+						if lastAction == event.ApplyAction {
+							waitLimit[e.ActionGroupEvent.GroupName] = rtmo
+						}
+					} else {
+						lastAction = e.ActionGroupEvent.Action
+					}
+				}
 			case event.WaitType:
+				if e.WaitEvent.Status == event.ReconcileTimeout && out.Anomaly == "" {
+					// the Started event was read before the phase's timer was created: the elapsed time seen here is an upper
+					// bound of nothing and a lower bound of the configured timeout
+					if t0, ok := waitStarted[e.WaitEvent.GroupName]; ok {
+						if el, lim := time.Since(t0), waitLimit[e.WaitEvent.GroupName]; el < lim {
+							out.Anomaly = fmt.Sprintf("early-timeout: %s reported Timeout after %dms, configured %dms", e.WaitEvent.GroupName, el.Milliseconds(), lim.Milliseconds())
+						}
+					}
+				}
 				k := idKey(toJid(e.WaitEvent.Identifier))
 				if p, ok := pending[e.WaitEvent.GroupName]; ok {
 					if e.WaitEvent.Status == event.ReconcilePending {
